@@ -267,6 +267,8 @@ func classify(msg string) string {
 		return "prefetch-overfetch"
 	case strings.Contains(msg, "registry unreachable"):
 		return "not-readable-offline-after-bgfetch"
+	case strings.Contains(msg, "WaitForPrefetchCompletion after Prefetch returned"):
+		return "wait-not-released-when-prefetch-ended"
 	case strings.Contains(msg, "wrong bytes"):
 		return "wrong-bytes"
 	case strings.Contains(msg, "never returned"), strings.Contains(msg, "deadlock"):
@@ -374,6 +376,7 @@ func concScenario(sc concScen, scratch string) *vexp.Scenario {
 			var w *world
 			waitDone := map[int]bool{}
 			waiters := 0
+			var probeErrs []string
 			var outs []string
 			body := func() {
 				var err error
@@ -421,6 +424,21 @@ func concScenario(sc concScen, scratch string) *vexp.Scenario {
 								}
 							case "R":
 								w.readAll(allPaths(w.b), "concurrent read")
+							case "O":
+								// offline probe right after this thread's BackgroundFetch returned nil: the promise must
+								// hold at that moment, not only once some other caller's fetch has finished
+								if len(o) > 0 && o[len(o)-1] == "B=ok" {
+									vrt.Quiet(func() {
+										w.env.Reg.Down = true
+										for _, p := range allPaths(w.b) {
+											got, err := layer.VerifReadFile(w.l, p)
+											if err != nil || !bytes.Equal(got, w.b.Content[p]) {
+												probeErrs = append(probeErrs, fmt.Sprintf("BackgroundFetch returned nil to this caller but %s cannot be read with the registry unreachable (err=%v): the fetch it should have waited for has not completed", p, err))
+											}
+										}
+										w.env.Reg.Down = false
+									})
+								}
 							}
 						}
 						outs[i] = strings.Join(o, ",")
@@ -433,6 +451,20 @@ func concScenario(sc concScen, scratch string) *vexp.Scenario {
 						vrt.Block("join", func() bool { return done[i] })
 					}
 				}
+				// every BackgroundFetch call that returned nil promises the layer is complete locally
+				bgOK := false
+				for _, o := range outs {
+					if strings.Contains(o, "B=ok") {
+						bgOK = true
+					}
+				}
+				if bgOK && sc.Cfg.FailAt == 0 && sc.Cfg.StallAt == 0 {
+					vrt.Quiet(func() {
+						w.env.Reg.Down = true
+						w.readAll(allPaths(w.b), "after a BackgroundFetch call returned nil, registry unreachable")
+						w.env.Reg.Down = false
+					})
+				}
 			}
 			check := func(res vrt.Result) (string, error) {
 				defer func() {
@@ -442,6 +474,9 @@ func concScenario(sc concScen, scratch string) *vexp.Scenario {
 				}()
 				if w != nil && len(w.errs) > 0 && sc.Cfg.FailAt == 0 && sc.Cfg.StallAt == 0 {
 					return "", fmt.Errorf("%s", strings.Join(w.errs, "; "))
+				}
+				if len(probeErrs) > 0 {
+					return "", fmt.Errorf("%s", strings.Join(probeErrs, "; "))
 				}
 				if len(waitDone) != waiters {
 					return "", fmt.Errorf("WaitForPrefetchCompletion never returned (%d of %d waiters returned; blocked: %s)", len(waitDone), waiters, strings.Join(res.Blocked, "; "))
@@ -484,6 +519,13 @@ func concScens(tier string) []concScen {
 	out = append(out, concScen{Cfg: as, Threads: [][]string{{"P"}, {"W"}}})
 	out = append(out, concScen{Cfg: base, Threads: [][]string{{"B"}, {"R"}}})
 	out = append(out, concScen{Cfg: base, Threads: [][]string{{"B"}, {"B"}}})
+	for k := 1; k <= 2; k++ {
+		// the first caller's download stalls: a second caller must not be told the layer is complete
+		st := base
+		st.StallAt = k
+		st.RegChunk = 32 // small registry chunks: the background fetch really has to ask the registry
+		out = append(out, concScen{Cfg: st, Threads: [][]string{{"B", "O"}, {"B", "O"}}})
+	}
 	if tier == "thorough" {
 		out = append(out, concScen{Cfg: base, Threads: [][]string{{"P", "B"}, {"W", "R"}}})
 		np := cfgT{Layer: 3, PrefetchSize: 20, RegChunk: 4, PrefetchCh: 8}
